@@ -201,9 +201,9 @@ def forbidden_hits(path):
     return hits
 
 
-def run_driver(lines, which='model', timeout=3000):
-    """pipe JSON lines through the Lean driver; returns the list of decoded answers (one per line)"""
-    main = 'MainModel.lean' if which == 'model' else 'MainSpec.lean'
+def run_driver(lines, which='model', timeout=3000, cluster='Z'):
+    """pipe JSON lines through the Lean driver of `cluster`; returns the list of decoded answers (one per line)"""
+    main = f'run/Model{cluster}.lean' if which == 'model' else f'run/Spec{cluster}.lean'
     data = '\n'.join(json.dumps(l, separators=(',', ':')) for l in lines) + '\n'
     p = subprocess.run(['lake', 'env', 'lean', '--run', main], cwd=LEAN, input=data, capture_output=True, text=True, timeout=timeout)
     if p.returncode != 0:
